@@ -4,6 +4,8 @@ package main
 //
 //	c09OwnsErrKeeps      OperatorPartition.ExclusivelyOwnsTable has a top-level `if err != nil { return false, err }`
 //	                     before its final `return !neighborNeedsTable, …` (1) or returns (!needs, err) unguarded (0)
+//	c09OwnsNoDeadline    … its query context is context.WithCancel(context.Background()): no deadline, no timer (1)
+//	c09OwnsErrPassed     … and the query goroutine sends (needsTable, err) on unchanged: an error is never dropped (1)
 //	c09NeedsChecksLive   DB.NeedsTable reads the checkpoint list and the live level list (1), checkpoints only (0)
 //	c09NeedsLiveFirst    … and reads the live level list before the checkpoint list (1) or after it (0)
 //	c09CkptUsesLevels    Checkpoint.IncludesTable consults cp.Levels when there is no URI index (1) or only the index (0)
@@ -71,6 +73,64 @@ func c09Facts(fc *facts) {
 			v = 1
 		}
 		fc.set("c09OwnsErrKeeps", v, finalOK, "ExclusivelyOwnsTable final `return !neighborNeedsTable, …`")
+
+		// the query context: `ctx, cancel := context.WithCancel(context.Background())` and nothing in the function
+		// that gives it (or any derived context) a deadline
+		noDeadline, ctxSeen := uint64(1), false
+		ast.Inspect(own.Body, func(x ast.Node) bool {
+			if c, ok := x.(*ast.CallExpr); ok {
+				switch selName(c.Fun) {
+				case "context.WithCancel":
+					if len(c.Args) == 1 {
+						if inner, ok := c.Args[0].(*ast.CallExpr); ok && selName(inner.Fun) == "context.Background" {
+							ctxSeen = true
+						}
+					}
+				case "context.WithTimeout", "context.WithDeadline", "context.WithTimeoutCause", "context.WithDeadlineCause", "time.After", "time.AfterFunc", "time.NewTimer":
+					noDeadline = 0
+				}
+			}
+			return true
+		})
+		fc.set("c09OwnsNoDeadline", noDeadline, ctxSeen || noDeadline == 0, "ExclusivelyOwnsTable `context.WithCancel(context.Background())`")
+
+		// the query goroutine: `needsTable, err := neighbor.NeedsTable(..)` is sent on as it is — `err` (and
+		// `needsTable`) are never assigned again
+		errPassed, sendSeen := uint64(1), false
+		ast.Inspect(own.Body, func(x ast.Node) bool {
+			fl, ok := x.(*ast.FuncLit)
+			if !ok {
+				return true
+			}
+			ast.Inspect(fl.Body, func(y ast.Node) bool {
+				switch n := y.(type) {
+				case *ast.AssignStmt:
+					for _, l := range n.Lhs {
+						if name := selName(l); (name == "err" || name == "needsTable") && n.Tok == token.ASSIGN {
+							errPassed = 0
+						}
+					}
+					if n.Tok == token.DEFINE {
+						for _, l := range n.Lhs {
+							if selName(l) == "err" {
+								if c, ok := n.Rhs[0].(*ast.CallExpr); !ok || selName(c.Fun) != "neighbor.NeedsTable" {
+									errPassed = 0
+								}
+							}
+						}
+					}
+				case *ast.SendStmt:
+					if cl, ok := n.Value.(*ast.CompositeLit); ok && len(cl.Elts) == 2 && selName(cl.Elts[0]) == "needsTable" && selName(cl.Elts[1]) == "err" {
+						sendSeen = true
+					} else {
+						errPassed = 0
+					}
+				}
+				return true
+			})
+			return false
+		})
+		fc.set("c09OwnsErrPassed", errPassed, sendSeen || errPassed == 0, "ExclusivelyOwnsTable goroutine `results <- result{needsTable, err}`")
 	}
 
 	// --- DB.NeedsTable ---
